@@ -107,10 +107,10 @@ def run_collapse(expr, free):
 def check(expr, free):
     from pymbolic import substitute
     try:
-        with kernel.time_limit(20):
+        with kernel.time_limit(120):
             res, handed, assigned = run_collapse(expr, free)
     except kernel.Budget:
-        return ("budget", "collapse_constants did not return within 20 s"), None
+        return ("budget", "collapse_constants did not return within 120 s"), None
     except Exception as ex:
         return ("exception(%s)" % type(ex).__name__, "%s: %s" % (type(ex).__name__, ex)), None
     out = "%s | %s" % (res, "; ".join("%s=%s" % (v, e) for v, e in assigned))
